@@ -77,8 +77,12 @@ def build():
       extra_locals={})
     P(CS_C, 'CspSolver::solveRecursive')
     # the consistency test of the backtracking search (inner loop of solveRecursive): from the copy of varToConstr[varNo] to the use of allValid
-    U.fragment(CS_C, 'CspSolver_solveRecursive_check', r'ConstrSet constrMask = varToConstr\[varNo\];', r'if \(allValid\) \{', within='CspSolver::solveRecursive',
+    fr = U.fragment(CS_C, 'CspSolver_solveRecursive_check', r'ConstrSet constrMask = varToConstr\[varNo\];', r'if \(allValid\) \{', within='CspSolver::solveRecursive',
                params=[('int', 'varNo', False), ('std::vector<int>', 'values', True)], ret='bool', cls='CspSolver', is_static=False, epilogue='\n    return allValid;\n')
+    U.tr.classes['CspSolver'].methods.setdefault((fr.cname, len(fr.params), False), {})[''] = fr
+    # the backtracking function with exactly that region (same anchors) replaced by a call of the fragment; its recursive call is a call of itself
+    P(CS_C, 'CspSolver::solveRecursive', suffix='_outer',
+      rules=[(r'(?s)ConstrSet constrMask = varToConstr\[varNo\];.*?(?=if \(allValid\) \{)', 'bool allValid = CspSolver_solveRecursive_check(varNo, values);\n        ', 1)])
     U.passthrough('CONSTRSET_ZERO', 'Domain_ne', 'ConstrSet_orAssign')
     U.raw('#define CONSTRSET_ZERO ((struct ConstrSet){{0, 0, 0}})\n')
     return U
@@ -265,6 +269,34 @@ CONTRACTS['CspSolver_solveRecursive_check'] = {
                   'invariant': ['allValid', 'CS_SUBSET(constrMask, self->varToConstr.data[varNo])',
                                 '(C_IDX(self, ghost_e) && CS_HAS(self->varToConstr.data[varNo], ghost_e) && !CS_HAS(constrMask, ghost_e) && C_APPLIES(self, ghost_e, varNo)) ==> C_SAT(self, ghost_e, values)']}},
 }
+SPEC += r'''
+int ghost_v0;
+#define PRE_SAT(self, vals, n) ((C_IDX(self, ghost_e) && C_AT(self, ghost_e).v1 < (n) && C_AT(self, ghost_e).v2 < (n)) ==> C_SAT(self, ghost_e, vals))
+#define PRE_DOM(self, vals, n) ((0 <= ghost_k && ghost_k < (n)) ==> DOM_HAS((self)->domain.data[ghost_k], (vals)->data[ghost_k]))
+/* every constraint is attached to both of its variables (established by the loop in solve) */
+#define V2C_COMPLETE_G(self) (C_IDX(self, ghost_e) ==> (CS_HAS((self)->varToConstr.data[C_AT(self, ghost_e).v1], ghost_e) && CS_HAS((self)->varToConstr.data[C_AT(self, ghost_e).v2], ghost_e)))
+'''
+CONTRACTS['CspSolver_solveRecursive_outer'] = {
+    'requires': _SHAPE + ['CONSTR_WF(self)', 'V2C_BELOW(self)', 'V2C_COMPLETE_G(self)', _VAR, '__CPROVER_is_fresh(values, sizeof(*values))', 'values->size == self->domain.size',
+                          '__CPROVER_is_fresh(values->data, CSP_MAXVARS * sizeof(int))', 'VALS_RANGE(values)',
+                          # the variables below varNo are assigned consistently (ghost_e: arbitrary constraint, ghost_k: arbitrary variable)
+                          'PRE_SAT(self, values, varNo)', 'PRE_DOM(self, values, varNo)', '0 <= ghost_k && ghost_k < CSP_MAXVARS'],
+    'assigns': ['self->nodes', '__CPROVER_object_whole(values->data)', 'ghost_w'],
+    'ensures': ['VALS_RANGE(values)',
+                # "true" means: the assignment satisfies every constraint and every value is taken from its domain
+                '__CPROVER_return_value ==> (C_IDX(self, ghost_e) ==> C_SAT(self, ghost_e, values))',
+                '__CPROVER_return_value ==> PRE_DOM(self, values, self->domain.size)',
+                # in every case the assignment of the earlier variables is untouched and stays consistent
+                'ghost_k < varNo ==> values->data[ghost_k] == __CPROVER_old(values->data[ghost_k])', 'PRE_SAT(self, values, varNo)', 'PRE_DOM(self, values, varNo)'],
+    'loops': {0: {'assigns': 'd, __CPROVER_object_whole(values->data), self->nodes, ghost_w',
+                  'invariant': ['VALS_RANGE(values)', 'DOM_SUBSET(d, self->domain.data[varNo])', 'ghost_k < varNo ==> values->data[ghost_k] == __CPROVER_loop_entry(values->data[ghost_k])',
+                                'PRE_SAT(self, values, varNo)', 'PRE_DOM(self, values, varNo)']}},
+}
+SPEC += '#define PREF_OK(self) (' + ' && '.join('(self)->prefVal.data[%d] >= 0 && (self)->prefVal.data[%d] <= 3' % (k, k) for k in range(DATA_MAXV)) + ')\n'
+CONTRACTS['CspSolver_solveRecursive_outer']['requires'].append('PREF_OK(self)')
+# the recursive call is a call of the function as pulled unmodified; it is replaced by the same contract (induction on the recursion depth)
+CONTRACTS['CspSolver_solveRecursive'] = {k: v for k, v in CONTRACTS['CspSolver_solveRecursive_outer'].items() if k != 'loops'}
+HARNESS += 'void h_sr_outer(void) { struct CspSolver* s; struct VecInt* v; int varNo; havoc_ghosts(); ghost_w = nondet_int(); ghost_v0 = nondet_int(); CspSolver_solveRecursive_outer(s, varNo, v); CANARY_POINT; }\n'
 HARNESS += 'void h_sr_check(void) { struct CspSolver* s; struct VecInt* v; int varNo; havoc_ghosts(); ghost_w = nondet_int(); CspSolver_solveRecursive_check(s, varNo, v); CANARY_POINT; }\n'
 for _f, _sig in (('makeEven', 'int v'), ('makeOdd', 'int v'), ('addMinVal', 'int v, int a'), ('addMaxVal', 'int v, int a')):
     decl = '; '.join(x.strip() for x in _sig.split(',')) + ';'
@@ -339,10 +371,13 @@ PROPERTIES = {'C20': [g.name for g in GROUPS]}
 # (SAT reasoning about symbolic shifts of the 64-bit domain words); the group is therefore NOT part of the claim.
 GROUPS.append(Group('solveRecursive_check', 'h_sr_check', enforce='CspSolver_solveRecursive_check', replace=('ConstrSet_empty', 'ConstrSet_getMinBit', 'ConstrSet_clearBit'),
                     loop_contracts=True, min_props=10, expect_loop_props=1, timeout=1800))
+GROUPS.append(Group('solveRecursive', 'h_sr_outer', enforce='CspSolver_solveRecursive_outer',
+                    replace=('CspSolver_solveRecursive', 'CspSolver_solveRecursive_check', 'CspSolver_getBitVal', 'Domain_empty', 'Domain_clearBit'),
+                    loop_contracts=True, min_props=10, expect_loop_props=1, timeout=3000))
 PROPERTIES = {'C20': [g.name for g in GROUPS if g.name != 'makeArcConsistent']}
 ASSUMPTIONS = {'C20': ['callers respect the documented argument ranges of addMinVal/addMaxVal/setRange (the repo asserts in addVariable/addIneq; their callers in extproofkernel.cpp are outside the subset)']}
 NOT_DECIDED = {'C20': ['CspSolver::makeArcConsistent (loop invariant with a ghost solution written and cut mechanically, inductive step not discharged within 15 min by any back end tried)',
-                       'CspSolver::solveRecursive / solve (backtracking search): not under contract',
+                       'CspSolver::solveRecursive: soundness is under contract (a reported solution satisfies every constraint and lies in the domains; the consistency test has a witness for every rejection); completeness of the search (no solution missed) and solve() (construction of varToConstr, logging) are not',
                        'hence "reports solvable exactly when a solution exists" is NOT decided; decided are the bit-set primitives of both instantiations, the domain-restriction functions and getBitVal (returned value is a member for every preference order)',
                        'termination']}
 MUTANTS = [
@@ -355,5 +390,8 @@ MUTANTS = [
     dict(name='getBitVal_middle_small', file='lib/texelutillib/pg/cspsolver.cpp', pattern=r'for \(int b = 3; b >= 1; b--\)\n            if \(d.getBit\(b\)\)\n                return b;', repl='for (int b = 3; b >= 1; b--)\n            if (d.getBit(b))\n                return b - 1;', groups=['getBitVal']),
     dict(name='makeOdd_is_even', file='lib/texelutillib/pg/cspsolver.cpp', pattern=r'domain\[varNo\]\.removeEven\(\);', repl='domain[varNo].removeOdd();', groups=['makeOdd']),
     dict(name='setRange_order', file='lib/texelutillib/bitSet.hpp', pattern=r'removeSmaller\(minVal\);\n        removeLarger\(maxVal\);', repl='removeSmaller(maxVal);\n        removeLarger(minVal);', groups=['Domain_setRange']),
+    dict(name='sr_check_ge', file='lib/texelutillib/pg/cspsolver.cpp', pattern=r'if \(values\[c\.v1\] > values\[c\.v2\] \+ c\.c\) \{', repl='if (values[c.v1] >= values[c.v2] + c.c) {', groups=['solveRecursive_check']),
+    dict(name='sr_check_skips_own_var', file='lib/texelutillib/pg/cspsolver.cpp', pattern=r'if \(c\.v1 <= varNo && c\.v2 <= varNo\) \{', repl='if (c.v1 < varNo && c.v2 <= varNo) {', groups=['solveRecursive_check']),
+    dict(name='sr_early_success', file='lib/texelutillib/pg/cspsolver.cpp', pattern=r'if \(varNo == nValues - 1\)', repl='if (varNo >= nValues - 2)', groups=['solveRecursive']),
     dict(name='orAssign_and', file='lib/texelutillib/bitSet.hpp', pattern=r'data\[i\] \|= b.data\[i\];', repl='data[i] &= b.data[i];', groups=['ConstrSet_orAssign']),
 ]
